@@ -115,6 +115,30 @@ PROPS = {
         level_text='check_mem is verified against a region-containment contract for all addresses/lengths/layouts; each access arm is then verified modularly against that contract.',
         assumptions=['the set of allowed ranges is represented by one arbitrary member (any() over a set is the disjunction over its members)'],
     ),
+    'C03': dict(
+        title='x86-64 JIT-compiled code computes the same result as the interpreter',
+        parts=[
+            Part('jit', lambda h: h.startswith('arm_') or h in ('resolve_jumps_contract', 'epilogue_contract', 'map_register_contract') or h.startswith('prologue_'),
+                 lambda h, c, info=None: 'ensures:' in desc(c) or (in_file(c, 'src/jit.rs') and kani.is_panic_check(c)) or 'instruction fetch outside' in desc(c),
+                 'per opcode: the bytes the real encoders emit (whole jit.rs compiled verbatim) are decoded and executed by the x86-64 subset semantics from an arbitrary machine state and equal spec_step through the register map: registers, next pc (recorded jump targets), data access, rsp/packet-base preserved; prologue, epilogue and resolve_jumps contracts'),
+        ],
+        level_text='Both engines are proved equal to the same executable ISA spec (interpreter: C01; JIT: this check), per instruction and for all operands/registers/displacements/program counters; whole-program simulation over pc_locs/resolve_jumps is a paper lemma. Quick tier leaves the 12 mul/div/mod arms (emit_muldivmod) to the thorough tier.',
+        assumptions=['quick tier: emit_muldivmod arms (mul/div/mod, 32/64, imm/reg) are NOT run (10-15 min each under CBMC); thorough tier runs them',
+                     'ld_abs/ld_ind: immediate >= 0 (the JIT uses a signed disp32, the interpreter an unsigned add)'],
+    ),
+    'C12': dict(
+        title='Compiling any verified program returns Ok or Err and never panics or overruns (x86-64 JIT part)',
+        parts=[
+            Part('jit', lambda h: h.startswith('arm_') or h in ('resolve_jumps_contract', 'map_register_contract', 'epilogue_contract') or h.startswith('prologue_'),
+                 lambda h, c, info=None: (in_file(c, 'src/jit.rs') and kani.is_panic_check(c)) or 'shadow Vec' in desc(c) or 'index out of bounds' in desc(c)
+                 or any(k in desc(c) for k in ('counting pass sizes', 'emitted bytes stay inside', 'fails only for an unregistered', 'both passes agree', 'pc_locs[pc]', 'resolve_jumps succeeds', 'pc_locs indexed', 'no other byte changes', 'rel32 =')),
+                 'per opcode: no panic in the arm / encoders / map_register under the verifier facts; the counting pass (write_enabled = false) advances offset exactly like the emission pass (so the buffer sized by pass 1 fits pass 2 and the emit_bytes! assert is unreachable); compile error only for an unregistered helper; resolve_jumps indexes pc_locs in range and touches only the 4 displacement bytes'),
+        ],
+        level_text='Proof per instruction for the x86-64 JIT; repeatability = the emitted bytes are a function of (instruction, pc, helper address), which is what the C03 obligations state. Cranelift part: not covered (see not-claimed note).',
+        assumptions=['Cranelift compilation (build_cfg, block discipline, define_function) is NOT covered by this check',
+                     'JitMemory::new: page rounding, allocation and mprotect are not executed by the verifier',
+                     'quick tier: emit_muldivmod arms run in the thorough tier only'],
+    ),
     'C05': dict(
         title='A verifier-accepted program never crashes the interpreter',
         parts=[
@@ -148,6 +172,10 @@ PROPS = {
             Part('interp', lambda h: is_step(h) and h not in ('step_call', 'step_exit'),
                  ens('call frames and depth'),
                  'frame condition: no other instruction touches saved frames or the depth (only the frame-size registration at a function entry)'),
+            Part('interp', lambda h: h in ('stack_validate_step', 'stack_validate_head'), lambda h, c, info=None: 'ensures:' in desc(c) or (in_file(c, 'src/stack.rs') and kani.is_panic_check(c)),
+                 'stack_validate (loop body + head, verbatim): frame sizes are registered for pc 0 and for the target of every LOCAL call, with the calculator\'s value for that entry'),
+            Part('jit', lambda h: h == 'arm_call_local', lambda h, c, info=None: 'ensures:' in desc(c),
+                 'JIT emit_local_call against the x86 semantics: r6-r9 pushed, call to pc+1+imm, popped in reverse, rsp balanced and equally aligned in the callee (r10 lowering: known finding jit-local-call-r10)'),
         ],
         level_text='Per-step contracts with explicit frame conditions for every arm; pairing of a call with its return follows by induction on nesting (stated, not mechanised).',
         assumptions=['call/return pairing lemma (induction on nesting) is a paper argument over the proved frame conditions',
@@ -161,6 +189,8 @@ PROPS = {
                  'CALL imm: table consulted with key imm as u32; registered => called exactly once with (r1..r5), r0 = result, every other register unchanged; unregistered => Err and no call'),
             Part('interp', lambda h: is_step(h) and h != 'step_call', ens('helper called exactly'),
                  'no other instruction calls a helper'),
+            Part('jit', lambda h: h == 'arm_call_helper' or h.startswith('prologue_'), lambda h, c, info=None: 'ensures:' in desc(c),
+                 'JIT CALL imm against the x86 semantics: callee = function registered under imm as u32, (r1..r5) in rdi,rsi,rdx,rcx,r8, r6-r10 in callee-saved registers, unregistered id => compile error; rsp is 0 modulo 16 inside the generated code (prologue) and stays so across local calls'),
         ],
         level_text='Contract of the CALL arm against a recording helper, for all ids, arguments and depths.',
         assumptions=['JIT and Cranelift call sites: units jit / cranelift'],
@@ -248,6 +278,8 @@ PROPS = {
             Part('interp', lambda h: h in ('step_st_w_xadd', 'step_st_dw_xadd'),
                  any_of(ens('Ok/Err/exit value', 'memory access log', 'register file equals'), panics_in(INTERP_SRC)),
                  'aligned & allowed => exactly one AtomicAdd(addr, width, src truncated) and nothing else; misaligned => Err with empty access log'),
+            Part('jit', lambda h: h in ('arm_st_w_xadd', 'arm_st_dw_xadd'), lambda h, c, info=None: 'ensures:' in desc(c),
+                 'JIT: the bytes decode to exactly one `lock add [dst+off], src` of the right width (the f0 prefix is part of the obligation)'),
         ],
         level_text='Proof of the sequential contract and of "exactly one hardware-atomic read-modify-write, nothing else"; the schedule quantifier is NOT explored.',
         assumptions=['atomicity of a single AtomicU32/AtomicU64::fetch_add / `lock add` under any interleaving is the hardware/core guarantee and is ASSUMED (Kani has no threads; no schedule is explored)'],
